@@ -53,6 +53,11 @@ namespace cnl::_impl {
         if constexpr (InExponent < 0) {
             for (int in_exponent = InExponent;
                  in_exponent != 0 || (Precise && !(output.significand % OutRadix));) {
+#if defined(JOHNMCFARLANE_CNL_VERIF)
+                if (!std::is_constant_evaluated() && _impl::verif::tick_hook) {
+                    _impl::verif::tick_hook();
+                }
+#endif
                 if (output.significand % InRadix) {
                     if (oob(output.significand)) {
                         if (Precise) {
@@ -71,6 +76,11 @@ namespace cnl::_impl {
         } else {
             for (int in_exponent = InExponent;
                  in_exponent != 0 || !(output.significand % OutRadix);) {
+#if defined(JOHNMCFARLANE_CNL_VERIF)
+                if (!std::is_constant_evaluated() && _impl::verif::tick_hook) {
+                    _impl::verif::tick_hook();
+                }
+#endif
                 if (!(output.significand % OutRadix)) {
                     output.significand /= OutRadix;
                     output.exponent++;
